@@ -176,6 +176,18 @@ ElemElement::startElement(StylesheetExecutionContext&       executionContext) co
         {
             substring(elemName, prefix, 0, indexOfNSSep);
 
+            if (namespaceLen != 0 &&
+                equals(prefix, DOMServices::s_XMLNamespace) == true)
+            {
+                // "xmlns" cannot be declared as a prefix, so the element
+                // is generated without one, in the requested namespace...
+                elemName.erase(0, indexOfNSSep + 1);
+
+                prefix.clear();
+
+                havePrefix = false;
+            }
+
             const XalanDOMString* const     theNamespace =
                 getNamespacesHandler().getNamespace(prefix);
 
@@ -373,6 +385,18 @@ ElemElement::execute(StylesheetExecutionContext&        executionContext) const
         if (havePrefix == true)
         {
             substring(elemName, prefix, 0, indexOfNSSep);
+
+            if (namespaceLen != 0 &&
+                equals(prefix, DOMServices::s_XMLNamespace) == true)
+            {
+                // "xmlns" cannot be declared as a prefix, so the element
+                // is generated without one, in the requested namespace...
+                elemName.erase(0, indexOfNSSep + 1);
+
+                prefix.clear();
+
+                havePrefix = false;
+            }
 
             const XalanDOMString* const     theNamespace =
                 executionContext.getResultNamespaceForPrefix(prefix);
